@@ -92,6 +92,9 @@ func (m c02) genCase(ctx *core.Ctx, cfg []string, maxLong int) *core.Case {
 		if r.IntN(12) == 0 {
 			op = sOp("canonicalize")
 		}
+		if r.IntN(25) == 0 {
+			op = sOp(gen.Pick(r, []string{"setsp-self", "setsp-clone", "setsp-roundtrip"}))
+		}
 		if r.IntN(300) == 0 && len(op.Args) > 0 {
 			op.Args[len(op.Args)-1] = core.S(longInput(ctx, maxLong/4))
 		}
@@ -250,7 +253,7 @@ func opKind(name string) string {
 	switch {
 	case obs.IsSetter(name):
 		return "setter"
-	case strings.HasPrefix(name, "sp."):
+	case strings.HasPrefix(name, "sp."), strings.HasPrefix(name, "setsp"):
 		return "searchparams"
 	}
 	return name
